@@ -199,6 +199,17 @@ def wrap_random(rng, d, steps):
     return d, ops
 
 
+def nest_shape(cs, lv, hid):
+    """(type, level, hidden, map) of the tokens C06_containers_within_containers states (wrapc)"""
+    if not cs:
+        return [("paragraph_open", lv, hid, (0, 1)), ("inline", lv + 1, False, (0, 1)), ("paragraph_close", lv, hid, None)]
+    c, r = cs[0], cs[1:]
+    if c == "Q":
+        return [("blockquote_open", lv, False, (0, 1))] + nest_shape(r, lv + 1, False) + [("blockquote_close", lv, False, None)]
+    return ([("bullet_list_open", lv, False, (0, 1)), ("list_item_open", lv + 1, False, (0, 1))] + nest_shape(r, lv + 2, True)
+            + [("list_item_close", lv + 1, False, None), ("bullet_list_close", lv, False, None)])
+
+
 def run(ctx) -> int:
     rep: Reporter = ctx["rep"]
     tier, seed, proofs = ctx["tier"], ctx["seed"], ctx["proofs"]
@@ -210,6 +221,21 @@ def run(ctx) -> int:
     for k in range(400 if q else 8000):
         d, _ = wrap_random(rng, gen_D(rng), rng.randrange(1, 4))
         cases.append((Q_CFGS[k % len(Q_CFGS)], "parse", d, None))
+    # the class of C06_containers_within_containers: every list of "> " / "- " markers up to depth 4 in front of a line
+    # (model and implementation compared on exactly the documents the theorem speaks about; the token shape the theorem
+    # states is also checked on the implementation directly)
+    import itertools
+    nest_bad = None
+    for depth in range(0, 5):
+        for cs in itertools.product("QI", repeat=depth):
+            for line in ("foo *b*", "a \\< [l](/u) `c`"):
+                d = "".join("> " if c == "Q" else "- " for c in cs) + line + "\n"
+                cases.append((Q_CFGS[0], "parse", d, None))
+                if nest_bad is None:
+                    got = [(t.type, t.level, t.hidden, t.map if t.map is None else tuple(t.map)) for t in mds[0][1].parse(d)]
+                    if got != nest_shape(list(cs), 0, False):
+                        nest_bad = {"config": Q_CFGS[0], "law": "containers-within-containers", "D": line + "\n", "containers": "".join(cs),
+                                    "tokens": [list(map(str, g)) for g in got]}
     n_run, disagreements, kn, kbad, lines = pipecheck.correspond(cases, "c06")
     count = {"quote": 0, "item": 0, "skipped_hr": 0}
 
@@ -264,7 +290,7 @@ def run(ctx) -> int:
                     if v:
                         return {"config": cfg, "law": "item", "D": d, "marker": m, "spaces": sp, "wraps_already_applied": [], **v}
         return None
-    direct = fixed() or probe(rng, 1500 if q else 60000)
+    direct = nest_bad or fixed() or probe(rng, 1500 if q else 60000)
     conclude(rep, proofs, direct, "container-law", disagreements, kbad,
              lambda: probe(rng_for("C06", seed, "search"), 6000 if q else 100000),
              "whole pipeline on wrapped documents: model and implementation differ")
